@@ -766,8 +766,11 @@ pub fn run(ctx: &mut Ctx) {
         let mut candidates = 0usize;
         let mut tried = 0usize;
         for k in 0..2000 {
-            let which = (idx + k) % 4;
+            let which = (idx + k) % 6;
             let x = match which {
+                // (4, 5: alpha / beta outside their range: the getter shows the clamped value,
+                // and an engine that is given the clamped value directly is the same engine)
+                4 | 5 => *rng.pick(&[1.75, -0.5, 1.0000000000000002, 3.0, -1e-300]),
                 0 => (rng.range(0, 1600) as f64 - 800.0) / 20.0, // volume on a 0.05 dB grid
                 1 => rng.uniform(-40.0, 40.0),
                 2 => rng.uniform(0.3, 3.0),
@@ -788,6 +791,18 @@ pub fn run(ctx: &mut Ctx) {
                     let y = b.condition.get_speed();
                     b.condition.set_speed(y);
                     a.condition.set_speed(y);
+                    y
+                }
+                4 => {
+                    b.condition.set_alpha(x);
+                    let y = b.condition.get_alpha();
+                    a.condition.set_alpha(y);
+                    y
+                }
+                5 => {
+                    b.condition.set_beta(x);
+                    let y = b.condition.get_beta();
+                    a.condition.set_beta(y);
                     y
                 }
                 _ => {
@@ -811,7 +826,7 @@ pub fn run(ctx: &mut Ctx) {
                     if !bits_eq(&wa, &wb) {
                         ctx.violation(
                             "same-getters-different-waveform",
-                            J::obj().set("setter", ["volume", "volume", "speed", "half tone"][which]).set("x", x).set("read_back_and_set_again", y).set("getters", getters(&a)).set("condition_a", format!("{:?}", a.condition)).set("condition_b", format!("{:?}", b.condition)),
+                            J::obj().set("setter", ["volume", "volume", "speed", "half tone", "alpha", "beta"][which]).set("x", x).set("read_back_and_set_again", y).set("getters", getters(&a)).set("condition_a", format!("{:?}", a.condition)).set("condition_b", format!("{:?}", b.condition)),
                         );
                         return;
                     }
